@@ -1,0 +1,15 @@
+//go:build verif
+
+// Machine-checked contracts for package blake2b (comment-only; compiled only under the build
+// tag "verif").  Read by /verif/govc; see /verif/DESIGN.md.
+//
+// The compression function itself is outside the verifier's reach (SIMD assembly and
+// golang.org/x/crypto): node and leaf hashes are uninterpreted functions of their inputs
+// (assumption T9: they are deterministic; collision resistance is used only where stated).
+
+package blake2b
+
+//@ func SumPair
+//@   abstract
+//@ func SumLeaf
+//@   abstract
